@@ -332,7 +332,7 @@ impl Scenario for C09 {
     fn runs(&self, tier: Tier) -> u64 {
         match tier {
             Tier::Quick => 6_000,
-            Tier::Thorough => 400_000,
+            Tier::Thorough => 2_000_000,
         }
     }
     fn generate(&self, rng: &mut Prng, _tier: Tier) -> Spec {
